@@ -4,6 +4,9 @@ CONSTANTS
   Rounds = 2
   NoCall = NoCall
   None = None
+  RX = RX
+  ResetDropsStale = FALSE
+  MaxResets = 0
 INVARIANT TypeOK
 INVARIANT MutualExclusion
 INVARIANT FIFO
@@ -12,3 +15,4 @@ INVARIANT CounterGapFree
 INVARIANT BreakSemantics
 INVARIANT FinalOutcomes
 PROPERTY NoEntryAfterBreak
+PROPERTY ResetOnlyWhenIdle
